@@ -592,7 +592,7 @@ func (c *c11Case) exec(line string) {
 		if pan {
 			return
 		}
-		c.op(fmt.Sprintf("colwidth %d %d %d %s", a, b, w4, c11hexb(xl.VerifC11PreData(c.sw))), c11res(err))
+		c.op(fmt.Sprintf("colwidth %d %d %d %s", a, b, w4, c11hexb(xl.VerifC11Fields(c.sw, 4, 5))), c11res(err))
 		r.Stat("op:colwidth:" + c11res(err))
 		exp := c.accepted == 0 && a >= 1 && a <= xl.MaxColumns && b >= 1 && b <= xl.MaxColumns && w4 <= 4*xl.MaxColumnWidth
 		if exp != (err == nil) {
@@ -616,7 +616,7 @@ func (c *c11Case) exec(line string) {
 		if pan {
 			return
 		}
-		c.op(fmt.Sprintf("colstyle %d %d %d %s", a, b, st, c11hexb(xl.VerifC11PreData(c.sw))), c11res(err))
+		c.op(fmt.Sprintf("colstyle %d %d %d %s", a, b, st, c11hexb(xl.VerifC11Fields(c.sw, 4, 5))), c11res(err))
 		r.Stat("op:colstyle:" + c11res(err))
 		if exp := c.accepted == 0 && a >= 1 && a <= xl.MaxColumns && b >= 1 && b <= xl.MaxColumns && st >= 0 && st < xl.VerifC11StyleCount(c.sf); exp != (err == nil) {
 			c.fail("colstyle:verdict", fmt.Sprintf("SetColStyle(%d,%d,%d) = %v, expected accept=%v (rows accepted so far: %d)", a, b, st, err, exp, c.accepted), 0)
@@ -641,7 +641,7 @@ func (c *c11Case) exec(line string) {
 		if p == nil {
 			ok = "0"
 		}
-		c.op(fmt.Sprintf("panes %s %s", ok, c11hexb(xl.VerifC11PreData(c.sw))), c11res(err))
+		c.op(fmt.Sprintf("panes %s %s", ok, c11hexb(xl.VerifC11Fields(c.sw, 4, 5))), c11res(err))
 		r.Stat("op:panes:" + c11res(err))
 		if exp := c.accepted == 0 && p != nil; exp != (err == nil) {
 			c.fail("panes:verdict", fmt.Sprintf("SetPanes = %v, expected accept=%v (rows accepted so far: %d)", err, exp, c.accepted), 0)
